@@ -2,8 +2,8 @@ package vegeta
 
 import (
 	"bytes"
-	"net/http"
 	"errors"
+	"net/http"
 	"strings"
 )
 
